@@ -128,13 +128,30 @@ func Pipe(p []int) error {
 	return nil
 }
 
+// SimUnprivileged makes Open behave as for an unprivileged owner: a file without the owner-read bit cannot be opened
+// (the checks run as root, for whom every open succeeds).
+func SimUnprivileged(on bool) {
+	mu.Lock()
+	unpriv = on
+	mu.Unlock()
+}
+
+var unpriv bool
+
 func Open(path string, mode int, perm uint32) (int, error) {
 	mu.Lock()
 	if e, ok := FailOpen[path]; ok {
 		mu.Unlock()
 		return -1, e
 	}
+	up := unpriv
 	mu.Unlock()
+	if up {
+		var st syscall.Stat_t
+		if syscall.Stat(path, &st) == nil && st.Mode&0o400 == 0 {
+			return -1, EACCES
+		}
+	}
 	fd, err := syscall.Open(path, mode, perm)
 	if err != nil {
 		return -1, err
